@@ -441,3 +441,35 @@ Theorem C05_mapor_km_ok (H : list (oprec (mop oop))) :
   mohist_ok_km H -> km_once H -> forall (s : cmap orswot) (K : gset nat), moreach_km H s K -> mapor_km_ok H K s = true.
 Proof. exact (mapor_km_ok_reach H). Qed.
 Print Assumptions C05_mapor_km_ok.
+
+(** Map<K, Orswot>, EVERY history outside the classes of the known findings T2 and T3 (all commands; a key that some key remove names receives only nested adds [kmn_addonly] and at most one update per actor [km_once]; any other key receives anything): the value half of the property with merges - the member table under every key is the value-level specification; the member
+    sentence with both kinds of cover (key remove naming the key, nested remove naming the member); the complete-state decider.
+    Both hypotheses are needed: C02_mapor_km_once_needed (T2) and the witness below (T3) (proofs/MapOrswotKMN.v, MapOrswotKMNCor.v) *)
+From Crdt Require Import model.Orswot model.Map spec.System spec.OrswotSpec spec.OrswotSystem spec.MapSpec spec.MapSystem spec.MapOrswotSpec spec.MapOrswotKM spec.MapOrswotKMN proofs.MapOrswotKMN proofs.MapOrswotKMNCor.
+Theorem C05_mapor_kmn_values_refine (H : list (oprec (mop oop))) :
+  mohist_ok_kmn H -> km_once H -> kmn_addonly H ->
+  forall (s : cmap orswot) (K : gset nat) (k : N), moreach_kmn H s K -> mo_state_entries s k = mo_entries (known_ops H K) k.
+Proof. exact (mapor_values_refine_kmn H). Qed.
+Print Assumptions C05_mapor_kmn_values_refine.
+
+Theorem C05_mapor_kmn_member_sentence (H : list (oprec (mop oop))) (s : cmap orswot) (K : gset nat) (k m : N) :
+  mohist_ok_kmn H -> km_once H -> kmn_addonly H -> moreach_kmn H s K ->
+  (m ∈ dom (mo_state_entries s k) <->
+    exists d ms, MUp d k (OAdd d ms) ∈ known_ops H K /\ m ∈ ms /\
+      ~ (exists c ks, MRm c ks ∈ known_ops H K /\ k ∈ ks /\ dcounter d <= vget c (dactor d)) /\
+      ~ (exists d1 c ms', MUp d1 k (ORm c ms') ∈ known_ops H K /\ m ∈ ms' /\ dcounter d <= vget c (dactor d))).
+Proof. exact (mapor_member_iff_kmn H s K k m). Qed.
+Print Assumptions C05_mapor_kmn_member_sentence.
+
+Theorem C05_mapor_kmn_ok (H : list (oprec (mop oop))) :
+  mohist_ok_kmn H -> km_once H -> kmn_addonly H -> forall (s : cmap orswot) (K : gset nat), moreach_kmn H s K -> mapor_kmn_ok H K s = true.
+Proof. exact (mapor_kmn_ok_reach H). Qed.
+Print Assumptions C05_mapor_kmn_ok.
+
+Theorem C05_mapor_kmn_addonly_needed :
+  exists (H : list (oprec (mop oop))) (sX sY : cmap orswot) (K : gset nat),
+    mohist_ok_kmn H /\ km_once H /\ ~ kmn_addonly H /\
+    moreach_kmn H sX K /\ moreach_kmn H sY K /\ sX <> sY /\
+    mo_state_entries sX 0 = ∅ /\ mo_state_entries sY 0 = {[1 := {[0 := 1]}]}.
+Proof. exact kmn_addonly_needed_closed. Qed.
+Print Assumptions C05_mapor_kmn_addonly_needed.
